@@ -328,10 +328,21 @@ func c20Start(p *Prog, r *Report, sfs []sideFile) {
 		stem := ""
 		for _, st := range StoresTo(start, wsT, sf.name) {
 			call, ok := st.Val.(*ssa.Call)
-			if !ok || CalleeName(&call.Call) != "fmt.Sprintf" {
+			if !ok {
 				continue
 			}
-			if call.Call.Args[0] != ssa.Value(start.Params[1]) {
+			// Sprintf(pattern, stem, ext), directly or through a one-line helper / closure
+			var path []ssa.Instruction
+			if CalleeName(&call.Call) != "fmt.Sprintf" {
+				h := call.Call.StaticCallee()
+				inner, _ := singleReturn(h).(*ssa.Call)
+				if !isModuleFn(h) || len(h.Blocks) != 1 || inner == nil || CalleeName(&inner.Call) != "fmt.Sprintf" {
+					continue
+				}
+				path = []ssa.Instruction{call}
+				call = inner
+			}
+			if resolveCell(ArgForParam(path, call.Call.Args[0])) != ssa.Value(start.Params[1]) {
 				continue
 			}
 			// first variadic element: the constant stem
@@ -343,7 +354,7 @@ func c20Start(p *Prog, r *Report, sfs []sideFile) {
 								for _, r2 := range *ia.Referrers() {
 									if s2, ok := r2.(*ssa.Store); ok {
 										if mi, ok := s2.Val.(*ssa.MakeInterface); ok {
-											if c, ok := mi.X.(*ssa.Const); ok && c.Value != nil {
+											if c, ok := ArgForParam(path, mi.X).(*ssa.Const); ok && c.Value != nil {
 												stem = constant.StringVal(c.Value)
 											}
 										}
@@ -518,8 +529,34 @@ func c20Events(p *Prog, r *Report, sfs []sideFile) {
 			// control: only droppedFrames > 0 and the activity predicate (plus nothing else)
 			var conds []string
 			bad := ""
+			// a gate kept in a flag (`active := false; if drops > 0 { active = ws.Active }; if active`)
+			// stands for the conditions under which the flag was set
+			var gates []string
 			for _, c := range controllingIfs(w.Block()) {
-				d := c05Describe(c.If.Cond, nil, 0)
+				if ph, isPhi := c.If.Cond.(*ssa.Phi); isPhi && c.Branch == 0 {
+					expanded := true
+					var parts []string
+					for i, e := range ph.Edges {
+						if k, isC := e.(*ssa.Const); isC && k.Value != nil && k.Value.ExactString() == "false" {
+							continue
+						}
+						parts = append(parts, c05Describe(e, nil, 0))
+						pred := ph.Block().Preds[i]
+						for _, c2 := range controllingIfs(pred) {
+							parts = append(parts, c05Describe(c2.If.Cond, nil, 0))
+						}
+						if _, isC := e.(*ssa.Const); isC {
+							expanded = false
+						}
+					}
+					if expanded && len(parts) > 0 {
+						gates = append(gates, parts...)
+						continue
+					}
+				}
+				gates = append(gates, c05Describe(c.If.Cond, nil, 0))
+			}
+			for _, d := range gates {
 				conds = append(conds, d)
 				switch {
 				case strings.Contains(d, "droppedFrames"):
